@@ -356,3 +356,26 @@ func isErrorType(t types.Type) bool {
 	n, ok := types.Unalias(t).(*types.Named)
 	return ok && n.Obj().Pkg() == nil && n.Obj().Name() == "error"
 }
+
+// isWriterType: an interface with Write([]byte) (int, error).
+func isWriterType(t types.Type) bool {
+	it, ok := t.Underlying().(*types.Interface)
+	if !ok {
+		return false
+	}
+	for i := 0; i < it.NumMethods(); i++ {
+		m := it.Method(i)
+		if m.Name() != "Write" {
+			continue
+		}
+		sig := m.Type().(*types.Signature)
+		if sig.Params().Len() == 1 && sig.Results().Len() == 2 {
+			if sl, ok := sig.Params().At(0).Type().Underlying().(*types.Slice); ok {
+				if b, ok := sl.Elem().Underlying().(*types.Basic); ok && b.Kind() == types.Uint8 {
+					return true
+				}
+			}
+		}
+	}
+	return false
+}
